@@ -205,6 +205,13 @@ var tableFuncs = []struct{ lean, fn, kind string }{
 	{"sw_ValidTranCodeForServiceClassCode", "Batch.ValidTranCodeForServiceClassCode", "switch"},
 	{"sw_isTypeCode", "validator.isTypeCode", "switch"},
 	{"sw_isOriginatorStatusCode", "validator.isOriginatorStatusCode", "switch"},
+	{"sw_IsRefusedChangeCode", "IsRefusedChangeCode", "switch"},
+	{"sw_IsDishonoredReturnCode", "IsDishonoredReturnCode", "switch"},
+	{"sw_IsContestedReturnCode", "IsContestedReturnCode", "switch"},
+	{"sw_parseLine", "Reader.parseLine", "switch"},
+	{"sw_parseAddenda", "Reader.parseAddenda", "switch"},
+	{"sw_switchIATAddenda", "Reader.switchIATAddenda", "switch"},
+	{"sw_mandatoryOptionalIATAddenda", "Reader.mandatoryOptionalIATAddenda", "switch"},
 }
 
 func emitTables(p *pkg, out string) {
